@@ -74,6 +74,10 @@ def cases(tier, seed):
          'tol': 1e-12 if conv else float(r.choice([1e-3, 1e-12]))}
     if name == 'ITML_Supervised':
       p['n_constraints'] = int(r.choice([10, 25, 40]))
+    # (progress output is a configuration like any other: it must not
+    # alter what is computed)
+    if i % 5 == 2:
+      p['verbose'] = True
     out.append({'est': name, 'params': p, 'mode': mode,
                 # the program is scale covariant: coordinates x s, bounds x s^2
                 'scale': [1.0, 1.0, 1e5, 1e-4, 1e3][i % 5],
@@ -130,6 +134,11 @@ def run_case(spec, j):
   if spec['mode'] == 'explicit':
     u = float(np.quantile(q0[lab == 1], rng.uniform(0.2, 0.8)))
     lo = float(np.quantile(q0[lab == -1], rng.uniform(0.2, 0.8)))
+    if (spec['ds']['seed'] // 3) % 2 and min(u, lo) >= 0.5:
+      # bounds are numbers: whole numbers held in an integer container must
+      # behave like the same numbers as floats (the slack targets move away
+      # from them by fractions)
+      u, lo = int(max(1, round(u))), int(max(1, round(lo)))
     kwargs['bounds'] = [np.array([u, lo]), [u, lo], (u, lo)][
         spec['ds']['seed'] % 3]
   elif spec['mode'] == 'satisfied':
